@@ -190,6 +190,24 @@ int Stress(unsigned seed, int nthreads, int iters) {
   names.push_back("UTC");
   names.push_back("Fixed/UTC+01:00:00");
   names.push_back("V:nosuchzone");
+  // reference answers, computed single-threaded before any thread starts: lookups on a shared zone must give
+  // exactly these whatever the other threads are doing (a torn read of a hint would show up as another
+  // interval's offset)
+  struct Ref { cctz::time_zone tz; cctz::time_point<cctz::seconds> tp; cctz::time_zone::absolute_lookup al; cctz::time_zone::civil_lookup cl; };
+  std::vector<Ref> refs;
+  for (const auto& kv : vz::Table()) {
+    cctz::time_zone tz;
+    if (!cctz::load_time_zone("V:" + kv.first, &tz)) continue;
+    for (long long t = -3000000000LL; t <= 5000000000LL; t += 97000003LL) {
+      Ref r;
+      r.tz = tz;
+      r.tp = vz::TP(t);
+      r.al = tz.lookup(r.tp);
+      r.cl = tz.lookup(r.al.cs);
+      refs.push_back(r);
+    }
+  }
+  std::atomic<long> mismatches{0};
   std::vector<std::thread> ths;
   std::atomic<long> sink{0};
   for (int i = 0; i < nthreads; ++i) {
@@ -197,6 +215,20 @@ int Stress(unsigned seed, int nthreads, int iters) {
       t_index = i;
       unsigned s = seed * 2654435761u + static_cast<unsigned>(i) * 40503u + 1u;
       auto rnd = [&] { s = s * 1664525u + 1013904223u; return s >> 8; };
+      // value checks: many lookups per iteration, each thread dwelling on its own few instants so that
+      // different threads keep re-pointing the shared hints
+      for (int k = 0; k < iters * 40 && !refs.empty(); ++k) {
+        const Ref& r = refs[(static_cast<size_t>(i) * 7 + rnd() % 5) % refs.size()];
+        const auto al = r.tz.lookup(r.tp);
+        const auto cl = r.tz.lookup(r.al.cs);
+        if (al.offset != r.al.offset || al.cs != r.al.cs || al.is_dst != r.al.is_dst ||
+            cl.kind != r.cl.kind || cl.pre != r.cl.pre || cl.trans != r.cl.trans || cl.post != r.cl.post) {
+          if (mismatches++ == 0) {
+            fprintf(stderr, "VALUE-MISMATCH thread %d: lookup(%lld) offset %d (reference %d)\n", i,
+                    static_cast<long long>(vz::UT(r.tp)), al.offset, r.al.offset);
+          }
+        }
+      }
       for (int k = 0; k < iters; ++k) {
         cctz::time_zone tz;
         cctz::load_time_zone(names[rnd() % names.size()], &tz);
@@ -216,8 +248,8 @@ int Stress(unsigned seed, int nthreads, int iters) {
     });
   }
   for (auto& t : ths) t.join();
-  printf("stress done %ld\n", sink.load());
-  return 0;
+  printf("stress done %ld mismatches %ld\n", sink.load(), mismatches.load());
+  return mismatches.load() ? 3 : 0;
 }
 
 }  // namespace
